@@ -303,3 +303,118 @@ def oracle_rpe(line, out):
     if int(summ.get("handler", "0")) < nreq:
         bad.append("%d requests sent, the request handler ran %s times" % (nreq, summ.get("handler")))
     return bad
+
+
+# ------------------------------------------------------------------ client-and-server endpoint (rpx)
+
+RESP_GENUINE = "qN"
+RESP_FORGED = "TRZW"
+RPX_ALPHABET = ["g1", "g3", "e2", "f4", "q2", "N4", "N6", "T5", "R6", "R3", "Z7", "W1"]
+
+
+def rpx_ok(ops):
+    """N/T/R need an outstanding Observe registration (q); at most 4 of those"""
+    seen_q = False
+    nq = 0
+    for o in ops:
+        if o[0] == "q":
+            seen_q = True
+            nq += 1
+        elif o[0] in "NTRW" and not seen_q:
+            return False
+    return nq <= 4
+
+
+def rpx_line(wcfg, b12, ops):
+    return "rpx fixed %s %d %s" % (wcfg, b12, " ".join(ops))
+
+
+def rpx_exhaustive(wcfg, b12, alphabet, maxlen):
+    for n in range(1, maxlen + 1):
+        for ops in itertools.product(alphabet, repeat=n):
+            if rpx_ok(ops):
+                yield rpx_line(wcfg, b12, ops)
+
+
+def rpx_random(r):
+    wcfg = r.choice(WINDOWS)
+    w = weff(wcfg)
+    b12 = r.choice([0, 1])
+    ops, sent = [], []
+    last = r.choice([0, 0, 3, 70, 500, SEQ_MAX - 80])
+    have_q = False
+    nq = 0
+    for i in range(r.choice([3, 5, 8, 12, 18])):
+        c = r.random()
+        if sent and c < 0.15:
+            ops.append(r.choice(sent))
+            continue
+        if (not have_q and c < 0.5) or (c < 0.22 and nq < 3):
+            kind = "q"
+        elif c < 0.55 and have_q:
+            kind = r.choice("NNNTTRRW")
+        elif c < 0.62:
+            kind = "Z"
+        elif c < 0.75:
+            kind = r.choice("fPKO")
+        elif b12 and c < 0.85:
+            kind = r.choice("ex")
+        else:
+            kind = "g"
+        s = near(r, last, w)
+        if kind in "PRZW":
+            s = min(s, SEQ_MAX)
+        elif s >= SEQ_MAX:
+            s = SEQ_MAX - 1 - r.randrange(0, 3)
+        tok = "%s%x" % (kind, s)
+        if kind == "q":
+            have_q = True
+            nq += 1
+        ops.append(tok)
+        if kind in "geN":
+            sent.append(tok)
+        if kind in "gexqN" and s > last:
+            last = s
+    return rpx_line(wcfg, b12, ops)
+
+
+def oracle_rpx(line, out):
+    t = line.split()
+    ops = t[4:]
+    res = out.split()
+    if len(res) != len(ops) or not ops:
+        return ["unparsable result: %s" % out[:80]]
+    wcfg = t[2]
+    bad = []
+    accepted = []
+    prev = ("0", "0", "1")
+    for i, (op, o) in enumerate(zip(ops, res)):
+        f = o.split(",")
+        if len(f) != 4:
+            return ["unparsable result: %s" % out[:80]]
+        kind, seq, verdict, st = op[0], int(op[1:], 16), f[0], tuple(f[1:])
+        what = "response" if kind in RESP_GENUINE + RESP_FORGED else "request"
+        if kind in FORGE_KINDS or kind in RESP_FORGED:
+            if verdict == "A":
+                bad.append("step %d: %s failing authentication (claimed PIV %x) was delivered" % (i, what, seq))
+            if st != prev:
+                bad.append("step %d: forged %s (claimed PIV %x) changed the replay state %s -> %s"
+                           % (i, what, seq, ",".join(prev), ",".join(st)))
+        else:
+            armed = prev[2] == "0"
+            if verdict == "A":
+                if what == "request" or armed:
+                    if seq in accepted:
+                        bad.append("step %d: PIV %x accepted a second time (%s)" % (i, seq, what))
+                    accepted.append(seq)
+            elif what == "response" and not armed and seq < SEQ_MAX:
+                bad.append("step %d: genuine response PIV %x was not delivered (context in its initial state)" % (i, seq))
+            elif armed and seq < SEQ_MAX and accepted and seq > max(accepted):
+                bad.append("step %d: genuine %s PIV %x newer than everything accepted was rejected (%s)"
+                           % (i, what, seq, verdict))
+            elif (armed and seq < SEQ_MAX and accepted and seq not in accepted
+                  and max(accepted) - seq < weff(wcfg)):
+                bad.append("step %d: genuine %s PIV %x inside the window and never accepted was rejected (%s)"
+                           % (i, what, seq, verdict))
+        prev = st
+    return bad
